@@ -35,7 +35,8 @@ SPECIALS = [" ", "  ", "%s", "%d", "%(x)s", "{}", "{0}", "\\", "\\n", "\"", "'",
             ":", "@", "/", "..", "PASS ", "pass", "230", "%", "%%"]
 SCENARIOS = ["client_ok", "client_bad", "raw_PASS_ok", "raw_pass_ok", "raw_PaSs_bad", "raw_out_of_sequence", "raw_relogin",
              "raw_user_limit", "raw_server_limit", "raw_errors_after_login", "raw_cut_in_pass", "client_ok_ops", "raw_slow_manager",
-             "raw_failing_manager", "raw_close_while_logged_in", "client_timeout_in_pass", "raw_latin1_pass"]
+             "raw_failing_manager", "raw_close_while_logged_in", "client_timeout_in_pass", "raw_latin1_pass", "raw_pipelined_pass",
+             "raw_pass_no_newline"]
 
 
 def gen_password(rng):
@@ -76,17 +77,19 @@ async def scenario(net, hyg, name, password):
     stored = password if not name.endswith("_bad") else password + "X"
     users = [aioftp.User("alice", stored, base_path="/", **({"maximum_connections": 1} if name == "raw_user_limit" else {})),
              aioftp.User("bob", None, base_path="/")]
-    if name in ("raw_slow_manager", "raw_failing_manager", "client_timeout_in_pass"):
+    if name in ("raw_slow_manager", "raw_failing_manager", "client_timeout_in_pass", "raw_pipelined_pass"):
         # a user manager of the documented kind: get_user/authenticate decorated with with_timeout, timeout from the base class
         class Manager(aioftp.MemoryUserManager):
             @aioftp.with_timeout
             async def authenticate(self, user, password):
                 if name in ("raw_slow_manager", "client_timeout_in_pass"):
                     await asyncio.sleep(1.0)
-                else:
+                elif name == "raw_pipelined_pass":
+                    await asyncio.sleep(0.05)
+                elif name == "raw_failing_manager":
                     raise RuntimeError("directory service unreachable")
                 return await super().authenticate(user, password)
-        users = Manager(users, timeout=0.2 if name != "client_timeout_in_pass" else 5)
+        users = Manager(users, timeout=0.2 if name not in ("client_timeout_in_pass", "raw_pipelined_pass") else 5)
     w = W.World(net, users=users, **({"maximum_connections": 1} if name == "raw_server_limit" else {}))
     await w.start()
     outcome = []
@@ -149,6 +152,26 @@ async def scenario(net, hyg, name, password):
             except (asyncio.TimeoutError, aioftp.StatusCodeError, ConnectionError) as e:
                 outcome.append(type(e).__name__)
             c.close()
+        elif name == "raw_pipelined_pass":
+            # the whole login and further commands in one burst, the password check really suspends
+            p = RawPeer(net, 2121)
+            await p.connect()
+            p.writer.write(f"USER alice\r\nPASS {password}\r\nPWD\r\nMKD /x\r\nPASS {password}\r\nSYST\r\n".encode())
+            for _ in range(6):
+                r = await p.read_reply(wait=3)
+                outcome.append(r.code if r not in (None, "EOF") else str(r))
+                if r in (None, "EOF"):
+                    break
+            p.cut("fin")
+        elif name == "raw_pass_no_newline":
+            # the connection ends inside the PASS line
+            p = RawPeer(net, 2121)
+            await p.connect()
+            outcome.append((await p.cmd("USER alice")).code)
+            p.writer.write(f"PASS {password}".encode() + (b"\r" if len(password) % 2 else b""))
+            await asyncio.sleep(0.01)
+            p.cut("fin")
+            await asyncio.sleep(0.05)
         elif name == "raw_latin1_pass":
             # the peer encodes its lines with another codec than the server's
             p = RawPeer(net, 2121)
